@@ -326,13 +326,14 @@ func pipeTrace(args []string) int {
 		}
 		leaked := 0
 		if status == "ok" {
-			for k := 0; k < 100; k++ {
+			// goroutines of a finished run may need a moment to exit on a loaded machine; a real leak persists, so waiting is safe
+			for k := 0; k < 600; k++ {
 				leaked = runtime.NumGoroutine() - before
 				if leaked <= 0 {
 					leaked = 0
 					break
 				}
-				time.Sleep(2 * time.Millisecond)
+				time.Sleep(5 * time.Millisecond)
 			}
 		}
 		runtime.GOMAXPROCS(prev)
